@@ -45,7 +45,7 @@ PLAN = {
     "C08": {
         "level": "model_checking",
         "engines": lambda tier: [
-            _e("release", "pipemc", "c08"),
+            _e("release", "pipemc", "c08", drop=r"with the hint"),
             _e("script", "indep/loomdrv.py", "c08", also_build=[("loom", "loommc")]),
             _shared(_e("release", "seqmc", "c16", "--shards", "4"), r"does not decode|decoder rejects|creation failed|does not terminate", "C08 on the schedules the free-running pool of ncpu-1 workers takes by itself (one sampled schedule per insertion sequence of the C16 enumeration, mixing raw and compressed clusters, file and memory sources): creation terminates and the produced pack decodes"),
             _shared(_e("release", "seqmc", "c01", "--shards", "4", tier="quick"), r"content bytes differ|read error|does not terminate|creation failed|process dies|does not verify", "C08 on the schedules the free-running pool takes by itself, over the insertion sequences of the C01 enumeration: every address resolves to its own bytes, the pack verifies, creation terminates"),
@@ -175,7 +175,10 @@ PLAN = {
     },
     "C16": {
         "level": "exploration",
-        "engines": lambda tier: [_e("release", "seqmc", "c16", "--shards", "4")],
+        "engines": lambda tier: [
+            _e("release", "seqmc", "c16", "--shards", "4"),
+            dict(_shared(_e("release", "pipemc", "c08", tier="quick"), r"with the hint", "C16 on forced worker schedules: in every replayed arrival order of the C08 pipeline enumeration (queues shorter and longer than the back-pressure limit, 1..3 workers) a content inserted with the hint 'compress' lies in a compressed cluster and one inserted with 'do not compress' in an uncompressed one (compression byte read by the independent decoder)"), side=True),
+        ],
         "assumptions": [
             "observer = independent byte decoder in the harness (own CRC-32C, codec crates), not jubako's reader",
             "CompHint::Detect is unconstrained by the property and only recorded",
@@ -209,7 +212,7 @@ PLAN = {
         "level": "exploration",
         "engines": lambda tier: [
             _e("release", "schemamc", "c02"),
-            _shared(_e("release", "schemamc", "c03", tier="quick"), r"altered|unreadable|reader-panic", "C02 on the sorted stores of the C03 enumeration (keys of every length around the inline prefix, both store kinds): every value reads back as written"),
+            _shared(_e("release", "schemamc", "c03", tier="quick"), r"altered|unreadable|reader-panic|index anchored", "C02 on the sorted stores of the C03 enumeration (keys of every length around the inline prefix, both store kinds): every value reads back as written, and an index declared with the handle of an entry as its offset exposes the window that starts at that entry's final position"),
         ],
         "assumptions": [
             "values are restricted to boundary alphabets (byte-width boundaries, prefix lengths, 64 KiB tails); the alphabets x depth are enumerated completely",
